@@ -197,6 +197,17 @@ func c12owCase(ops []string) string {
 		case "ok", "err":
 			c12owWait(50*time.Millisecond, func() bool { return st.at(a[1]) != nil })
 			if op := st.at(a[1]); op != nil {
+				// the slot whose turn it is: the key's bookkeeping entry and its serving counter (this harness is
+				// inside package opdb).  A repetition is "inside the slot" only if it reaches the store while this
+				// very entry still serves this very sequence number, i.e. before the turn was handed on.
+				id := orderedID("ns", a[1])
+				w.mu.Lock()
+				k0 := w.keys[id]
+				var sv0 uint64
+				if k0 != nil {
+					sv0 = k0.serving
+				}
+				w.mu.Unlock()
 				op.release <- a[0] == "ok"
 				c12owWait(50*time.Millisecond, func() bool { return st.at(a[1]) != op })
 				if a[0] == "err" {
@@ -206,7 +217,13 @@ func c12owCase(ops []string) string {
 					verdict := "f"
 					c12owWait(5*time.Second, func() bool {
 						if n := st.at(a[1]); n != nil && n != op && n.gid == op.gid && n.desc == op.desc {
-							verdict = "r"
+							w.mu.Lock()
+							inSlot := k0 != nil && w.keys[id] == k0 && k0.serving == sv0
+							w.mu.Unlock()
+							if inSlot {
+								verdict = "r"
+							} // else: the write came back through a NEW slot — not a repetition the contract admits;
+							// it stays at the store as an operation the model does not expect
 							return true
 						}
 						return !c12owAlive(op.gid)
